@@ -21,6 +21,19 @@ const DIRECTED_G: &[&str] = &[
 ];
 
 fn garbage(rng: &mut Rng, kind: ItemKind) -> Vec<String> {
+    if rng.chance(1, 60) {
+        // a very long malformed member (hundreds of recovered errors in one member)
+        let n = rng.range(90, 320);
+        let w = rng.pick_str(&["int", "x", "in", "String", "12", "@A", "[", "List <"]).to_string();
+        let alt = rng.pick_str(&["y", "void", ")", "=", "\"s\"", "."]).to_string();
+        let mut out = Vec::new();
+        for i in 0..n {
+            for t in mutate::token_texts(if i % 7 == 3 { &alt } else { &w }) {
+                out.push(t);
+            }
+        }
+        return out;
+    }
     let n = rng.range(1, 8);
     let mut out: Vec<String> = Vec::new();
     while out.len() < n {
